@@ -515,6 +515,7 @@ func writeEvidence(pc *propCfg, tier string, seed int64, a *agg, nviol int, wall
 			"step_cap_runs":          a.stepCaps,
 			"known_findings":         kl,
 			"known_hits":             a.knownHits,
+			"fixed_defect_replays":   a.fixedReplayed,
 			"real_components":        real,
 			"stub_components":        stubs,
 			"repo_tree":              repoTreeHash(),
